@@ -1990,6 +1990,7 @@ func (s *Netceptor) removeConnection(remoteNodeID string) {
 		s.connLock.RUnlock()
 		if reconnected {
 			// a new session of this peer has been admitted since the entry was deleted above: the edge is its now
+			verifhook.Emit(s.vn, "known_del_skipped", "peer", remoteNodeID)
 			s.knownNodeLock.Unlock()
 
 			return
